@@ -95,6 +95,7 @@ func main() {
 	}
 	if *leanDir != "" {
 		writeLean(*leanDir, facts)
+		extractTables2(pkgs, repo, *leanDir, facts)
 	}
 }
 
